@@ -9,8 +9,10 @@
 EXTENDS Access, Json, SequencesExt
 
 CONSTANTS Shapes,      \* set of root shapes, each encoded as 10*nc + nr
-          RootKinds,   \* subset of {"owned", "plain", "torus", "slice_v", "slice_m"}; "plain" / "torus": third-party implementors
-                       \* (required methods only), the second with index operators that wrap around instead of panicking
+          RootKinds,   \* subset of {"owned", "plain", "torus", "plainv", "slice_v", "slice_m"}; "plain" / "torus" / "plainv":
+                       \* third-party implementors (required methods only) - forwarding to an array; the same with index
+                       \* operators that wrap around instead of panicking; forwarding to a window narrower than its parent
+                       \* (rows not contiguous)
           Depth,       \* maximal nesting depth of windows
           MutDepth,    \* maximal number of mutating calls on one receiver
           Groups,      \* subset of {"read", "write", "view", "prim", "copy", "move", "sort", "sortbig"}
@@ -29,7 +31,7 @@ WithKeys(rt, st, by, line, pat) ==
         ELSE IF by = "col" /\ x = a.s[1] + line + 1 /\ y > a.s[2] /\ y <= a.s[2] + a.z[2] THEN rt[y][x] + pat[y - a.s[2]]
         ELSE rt[y][x]]]
 
-RootMutable == rkind \in {"owned", "plain", "torus", "slice_m"}
+RootMutable == rkind \in {"owned", "plain", "torus", "plainv", "slice_m"}
 LeafMutable == RootMutable /\ Mutable(stack)
 Z  == Abs(root, stack).z          \* size of the receiver
 WC == Z[1]
